@@ -64,6 +64,7 @@ class Model:
         self.frames: list[dict] = []         # slot fills per macro invocation
         self.fail_stack: dict[int, list] = {}  # id(exc) -> use_stack snapshot
         self.fail_info: dict[int, tuple] = {}  # id(exc) -> (site, fn depth)
+        self.lists: dict[str, int] = {}
         self.fn_depth = 0             # nesting of render functions
         self.err_records: list = []   # what fallbacks read from ``error``
         self._keep: list = []         # keeps exceptions alive (ids stay unique)
@@ -186,6 +187,12 @@ class Model:
         for p in parts:
             if p[0] == "lit":
                 vals.append(p[1])
+            elif p[0] == "count":
+                # appends to the list the enclosing element defined and
+                # shows its length; the list is new at every reach of the
+                # define
+                self.lists[p[1]] = self.lists.get(p[1], 0) + 1
+                vals.append(str(self.lists[p[1]]))
             elif p[0] == "expr":
                 vals.append(("v", self.convert(self.ev(p[1]), escape)))
             else:
@@ -271,6 +278,8 @@ class Model:
                 self.fn_depth -= 1
             return
         for scope, name, e in n["define"]:
+            if e["k"] == "lit" and name.startswith("L"):
+                self.lists[name] = 0        # a fresh list at this reach
             self.ev(e)
         if n["case"] is not None:
             # only ever generated directly under a switch element
